@@ -58,6 +58,7 @@ type Step struct {
 	ForceID string     `json:"force_id,omitempty"` // next id draw yields this (symbolic ref allowed)
 	Crash   *Fault     `json:"crash,omitempty"`    // applies to Cmd: kill/torn/err at visible event K
 	Fork    string     `json:"fork,omitempty"`     // "compact": differential fork point (C05)
+	Cont    []Step     `json:"cont,omitempty"`     // continuation executed on both sides of the fork
 	Note    string     `json:"note,omitempty"`
 }
 
